@@ -663,7 +663,8 @@ def gen_items(r, n, allow_high=True, prev_bare=None):
             if (prev_bare == 13 and f == 4) or (prev_bare == 10 and f == 3):
                 continue
             out.append("IT enter %d" % f)
-            for _ in range(r.rng(1, min(3, n - len(out) - 1))):
+            blk = r.rng(1, min(3, n - len(out) - 1)) if r.chance(2, 3) else r.pick([15, 16, 17, 31, 32, 33, 64])
+            for _ in range(blk):
                 out.append("IT char %d" % r.rng(32, 126))
             out.append(r.pick(["IT enter %d" % (4 if f == 3 else 3), "IT enter %d" % r.below(5), "IT char 0", "IT enter 4", "IT enter 3"]))
             prev_bare = last_bare(out)
@@ -689,7 +690,15 @@ def gen_items_case(r, idx):
     for _ in range(r.rng(1, 3)):
         its = gen_items(r, r.pick([31, 32, 33, 64, 65, 130]) if long else r.rng(1, 8), prev_bare=pb)
         pb = last_bare(its)
-        lines.append("T 0 items " + " ".join(its))
+        if not long and r.chance(1, 4):
+            # the items arrive cut across two reads, and the application uses the
+            # terminal for something else in between
+            between = r.pick(["-", "-", "size_%d_%d" % (r.rng(1, 9), r.rng(1, 5)), "size_80_24", "mouse_0", "mouse_1", "hide", "show",
+                              "erase_0", "move_0_0", "save", "restore", "buf_1", "buf_0", "title_6162", "alive_0", "alive_1",
+                              "elem_" + el(wf_glyph(r), wf_attr(r)).replace(" ", "_")])
+            lines.append("T 0 itemsplit %d %s %s" % (r.below(64), between, " ".join(its)))
+        else:
+            lines.append("T 0 items " + " ".join(its))
     lines.append("END")
     return lines
 
@@ -772,10 +781,17 @@ def gen_chunks_case(r, idx, item_stream=None):
             bs += frag_bytes(r) if r.chance(3, 4) else wild_bytes(r, r.rng(1, 4))
     else:
         bs = wild_bytes(r, r.rng(1, 24))
+    bm = beh_mask(r) if r.chance(1, 2) else 0
     for tid in range(4):
-        lines.append("T %d new 0" % tid)
-        lines.append("T %d arm" % tid)
+        lines.append("T %d new %d" % (tid, bm))
+        lines.append("T %d %s" % (tid, "arm2" if tid == 3 and r.chance(1, 2) else "arm"))
     for tid in range(4):
+        if tid == 3 and r.chance(1, 3) and len(bs) > 1:
+            # everything arrives while the client is busy: the channel hands the
+            # deliveries over one after another as the client re-arms
+            parts = partition(r, bs, 2)
+            lines.append("T 3 recvq %d %s" % (len(parts), " ".join(hexs(c) for c in parts)))
+            continue
         if long and tid >= 2:
             k = r.pick([2, 3, 5, 7, 16, 31, 32, 33, 64, 100, 200])
             chunks = [bs[i:i + k] for i in range(0, len(bs), k)]
@@ -789,7 +805,8 @@ def gen_chunks_case(r, idx, item_stream=None):
                 # deliveries (a resize after a size report, a redraw, ...)
                 lines.append("T %d %s" % (tid, r.pick([
                     "size %d %d" % (r.rng(1, 9), r.rng(1, 5)), "size 80 24", "move 0 0", "erase 0", "hide", "show",
-                    "elem " + el(wf_glyph(r), wf_attr(r)), "save", "restore", "mouse 1", "buf 1", "title 6869"])))
+                    "elem " + el(wf_glyph(r), wf_attr(r)), "save", "restore", "mouse 1", "mouse 0", "buf 1", "buf 0", "title 6869",
+                    "alive 0", "alive 1"])))
     lines.append("END")
     return lines
 
@@ -806,10 +823,21 @@ def gen_garbage_case(r, idx):
                 g += wild_bytes(r, r.rng(1, 3))
     else:
         g = wild_bytes(r, r.rng(0, 30))
+    if r.chance(1, 6):
+        # the garbage is nothing but half of a line ending
+        g = r.pick([[13], [10], [27], [13, 0], [27, 91], [27, 79]])
     lines.append("T 0 recv " + hexs(g))
-    letters = [r.pick(list(range(65, 91)) + list(range(97, 123))) for _ in range(4)]
+    letters = [r.pick(list(range(65, 91)) + list(range(97, 123))) for _ in range(r.pick([4, 4, 4, 4, 5, 15, 16, 17, 32, 33, 64, 200]))]
     lines.append("T 0 recv " + hexs(letters))
-    lines.append("T 0 items " + " ".join(gen_items(r, r.rng(1, 5))))
+    its = gen_items(r, r.rng(1, 5))
+    if r.chance(1, 3):
+        its = [r.pick(["IT enter 4", "IT enter 3", "IT char 0", "IT enter 0", "IT enter 2"])] + its
+        if not (len(its) > 1 and ((its[0] == "IT enter 3" and its[1] in ("IT enter 4", "IT char 0", "IT enter 2"))
+                                  or (its[0] == "IT enter 4" and its[1].startswith("IT enter") and its[1] != "IT enter 4"))):
+            pass
+        else:
+            its = its[:1]
+    lines.append("T 0 items " + " ".join(its))
     lines.append("END")
     return lines
 
@@ -976,12 +1004,16 @@ def gen_keyseq_case(r, idx):
         n = r.pick([base, base, base + 256, base + 512, base + 65536, base + (1 << 32), base + (1 << 31),
                     (1 << 31) - 1, (1 << 31), (1 << 63) - 1, (1 << 64) + base, r.below(100000)])
         intro = r.pick([[27, 91], [27, 27, 91], [155]])
+        def num(v):
+            # parameters may be written with leading zeros (ECMA-48 5.4.1)
+            z = r.pick([0, 0, 0, 1, 2, 9, 10, 16, 17, 18, 19, 20, 40]) if r.chance(1, 4) else 0
+            return b"0" * z + str(v).encode()
         if r.chance(1, 2):
             m = r.pick([-1, 1, 2, 5, 16, 17, 258, (1 << 32) + 2])
-            body = str(n).encode() + (b";" + str(m).encode() if m >= 0 else b"") + b"~"
+            body = num(n) + (b";" + num(m) if m >= 0 else b"") + b"~"
         else:
             m = r.pick([-1, 2, 6, 262, (1 << 32) + 2])
-            body = str(n).encode() + (b";" + str(m).encode() if m >= 0 else b"") + bytes([r.pick(CSI_KEYS)])
+            body = num(n) + (b";" + num(m) if m >= 0 else b"") + bytes([r.pick(CSI_KEYS)])
         pre = b""
         if r.chance(1, 3):
             # a truncated sequence (digits / separator already received) right before it
